@@ -49,7 +49,8 @@ def oracle(sc):
 
 def _descs(ctx, n):
     return E.mk_descs(ctx.rng, n, hostile=0.0, with_close=lambda r: r.random() < 0.75, steps=(3, 16), frag=0.2,
-                      close_mode=lambda r: r.choice(['eof', 'error', 'close', 'cut']))
+                      close_mode=lambda r: r.choice(['eof', 'error', 'close', 'cut']), race=0.5,
+                      on_close_raises=lambda r: r.random() < 0.15)
 
 
 def correspond(ctx, corr, model_ok):
